@@ -45,9 +45,8 @@ SameState(a, b) ==
 
 MainDoc(i) == DocOf(P, i) = DocOf(P, 1)
 
-ViewsAgreeAt(abs, i) ==
-  LET S  == St(abs)
-      p  == Parent(P, S, i)
+ViewsAgreeAt(abs, par, i) ==
+  LET p  == par[i]
       ks == abs.kids[i]
   IN /\ (P.kind[i] = "attr" => abs.par[i] = None)            \* DOM L1: attributes have no parent
      /\ (P.kind[i] # "attr" => abs.par[i] = p)
@@ -61,13 +60,13 @@ ViewsAgreeAt(abs, i) ==
              IN /\ abs.prev[i] = (IF k = 1 THEN None ELSE sib[k - 1])
                 /\ abs.next[i] = (IF k = Len(sib) THEN None ELSE sib[k + 1])
 
-BadViews(abs) == { i \in Nodes(P) : MainDoc(i) /\ ~ViewsAgreeAt(abs, i) }
+BadViews(abs, par) == { i \in Nodes(P) : MainDoc(i) /\ ~ViewsAgreeAt(abs, par, i) }
 
-C12Verdict(e) ==
+C12Verdict(e, postTree, parPost) ==
   IF ~Sane(e.post) THEN [v |-> "VIOLATION", why |-> "a child list mentions a node outside the pool or an accessor panicked"]
-  ELSE IF ~TreeInv(P, St(e.post)) THEN [v |-> "VIOLATION", why |-> "child lists do not form a tree"]
-  ELSE IF BadViews(e.post) # {} THEN
-       [v |-> "VIOLATION", why |-> "navigation views disagree with child_nodes", nodes |-> BadViews(e.post)]
+  ELSE IF ~postTree THEN [v |-> "VIOLATION", why |-> "child lists do not form a tree"]
+  ELSE IF BadViews(e.post, parPost) # {} THEN
+       [v |-> "VIOLATION", why |-> "navigation views disagree with child_nodes", nodes |-> BadViews(e.post, parPost)]
   ELSE [v |-> "ok"]
 
 \* ---------------------------------------------------------------------------------------------
@@ -94,8 +93,8 @@ OrderOkFrom(abs, n, lo) ==
                           abs.ord[abs.kids[as[k]][j]] > abs.ord[as[k]]
        IN IF ~aok THEN -1 ELSE OrderOkSeq(abs, abs.kids[n], amax)
 
-C14Verdict(e) ==
-  IF ~Sane(e.post) \/ ~TreeInv(P, St(e.post)) THEN [v |-> "skip"]
+C14Verdict(e, postTree) ==
+  IF ~postTree THEN [v |-> "skip"]
   ELSE IF OrderOkFrom(e.post, 1, 0) = -1
        THEN [v |-> "VIOLATION", why |-> "order keys not strictly increasing along the pre-order walk",
              ord |-> e.post.ord, preorder |-> DocOrder(P, St(e.post), 1)]
@@ -106,15 +105,15 @@ C14Verdict(e) ==
 
 ErrClass(out) == out.err
 
-C13Verdict(e) ==
+C13Verdict(e, preTree, postTree, parPre, ownPre) ==
   LET c   == e.call
       out == e.out
   IN
   IF "panic" \in DOMAIN out THEN [v |-> "VIOLATION", why |-> "panic", msg |-> out.panic]
-  ELSE IF ~Sane(e.pre) \/ ~TreeInv(P, St(e.pre)) THEN [v |-> "skip"]
+  ELSE IF ~preTree THEN [v |-> "skip"]
   ELSE
     LET S == St(e.pre)
-        o == Outcome(P, S, c)
+        o == OutcomeX(P, S, parPre, ownPre, c)
     IN
     IF "err" \in DOMAIN out THEN
          IF e.post # e.pre
@@ -123,19 +122,52 @@ C13Verdict(e) ==
          ELSE [v |-> "VIOLATION", why |-> "exception class not among the specified ones",
                err |-> out.err, allowed |-> o.errs, mayok |-> o.ok]
     ELSE \* ok
-         IF o.any THEN (IF Sane(e.post) /\ TreeInv(P, St(e.post)) THEN [v |-> "ok"]
+         IF o.any THEN (IF postTree THEN [v |-> "ok"]
                         ELSE [v |-> "VIOLATION", why |-> "unspecified call broke the tree"])
          ELSE IF ~o.ok THEN [v |-> "VIOLATION", why |-> "call must fail", allowed |-> o.errs]
          ELSE IF ~Sane(e.post) \/ ~SameState(St(e.post), Apply(P, S, c))
               THEN [v |-> "VIOLATION", why |-> "effect differs from DOM Level 1",
                     expected |-> Apply(P, S, c)]
-         ELSE IF out.ok # Returned(P, S, c)
+         ELSE IF /\ out.ok # Returned(P, S, c)
+                 \* setting an attribute node that the element already owns: DOM L1 does not say whether it
+                 \* "replaces itself" (returned) or nothing is replaced (null)
+                 /\ ~(c.op \in {"set_attribute_node", "set_named_item"} /\ c.a \in Range(S.attrs[c.r]) /\ out.ok = c.a)
               THEN [v |-> "VIOLATION", why |-> "returned node", expected |-> Returned(P, S, c)]
          ELSE [v |-> "ok"]
 
 \* ---------------------------------------------------------------------------------------------
 
-Verdict(e) == [c12 |-> C12Verdict(e), c13 |-> C13Verdict(e), c14 |-> C14Verdict(e)]
+\* ---------------------------------------------------------------------------------------------
+\* C14, second half: a query on the edited document selects, orders and de-duplicates exactly as on a fresh
+\* parse of its serialization.  The harness logs, per battery expression, the result on the live document and
+\* on the re-parsed copy as structural paths (computed by its own walk through child_nodes/attributes), and
+\* the pre-order index of every live result node.
+StrictlyIncreasing(s) == \A i \in 1..(Len(s) - 1) : s[i] < s[i + 1]
+
+QueryVerdict(e) ==
+  IF e.live # e.re
+  THEN [v |-> "VIOLATION", why |-> "query on the edited document differs from the query on its re-parsed serialization",
+        expr |-> e.expr]
+  ELSE [v |-> "ok"]
+
+Verdict(e) ==
+  IF e.event = "call"
+  THEN LET same     == e.pre = e.post
+           sanePost == Sane(e.post)
+           sanePre  == IF same THEN sanePost ELSE Sane(e.pre)
+           cpPost   == IF sanePost THEN ChildPairs(P, St(e.post)) ELSE {}
+           apPost   == IF sanePost THEN AttrPairs(P, St(e.post)) ELSE {}
+           parPost  == PairFn(P, cpPost)
+           cpPre    == IF same THEN cpPost ELSE IF sanePre THEN ChildPairs(P, St(e.pre)) ELSE {}
+           apPre    == IF same THEN apPost ELSE IF sanePre THEN AttrPairs(P, St(e.pre)) ELSE {}
+           parPre   == IF same THEN parPost ELSE PairFn(P, cpPre)
+           ownPre   == PairFn(P, apPre)
+           postTree == sanePost /\ TreeInvX(P, St(e.post), cpPost, apPost, parPost)
+           preTree  == IF same THEN postTree ELSE sanePre /\ TreeInvX(P, St(e.pre), cpPre, apPre, parPre)
+       IN  [c12 |-> C12Verdict(e, postTree, parPost), c13 |-> C13Verdict(e, preTree, postTree, parPre, ownPre),
+            c14 |-> C14Verdict(e, postTree)]
+  ELSE IF e.event = "query" THEN [c12 |-> [v |-> "ok"], c13 |-> [v |-> "ok"], c14 |-> QueryVerdict(e)]
+  ELSE [c12 |-> [v |-> "ok"], c13 |-> [v |-> "ok"], c14 |-> [v |-> "ok"]]        \* "reset"
 
 AllOk(v) == v.c12.v \in {"ok", "skip"} /\ v.c13.v \in {"ok", "skip"} /\ v.c14.v \in {"ok", "skip"}
 
